@@ -537,6 +537,95 @@ pub fn check_asn1_lens(c: &Asn1Lens) -> CaseResult {
     }
 }
 
+/// A GM/T 0009 SM2Cipher document around a genuine ciphertext whose parts take every shape a DER reader can meet: how each INTEGER is written,
+/// which tag and length the hash and the ciphertext carry, how the outer SEQUENCE states its length, what follows.
+#[derive(Serialize, Deserialize, Hash, Debug, Clone)]
+pub struct CipherDocShape {
+    /// x INTEGER: 0 minimal; 1 one redundant leading 00; 2 leading 00 dropped although the top bit is set (reads as negative); 3 empty content; 4 tag 04 instead of 02; 5 long-form length (81 nn)
+    pub x: u8,
+    /// y INTEGER: same shapes
+    pub y: u8,
+    /// hash: 0 OCTET STRING(32); 1 31 bytes; 2 33 bytes; 3 BIT STRING tag; 4 empty; 5 long-form length
+    pub hash: u8,
+    /// ciphertext: 0 OCTET STRING; 1 empty OCTET STRING; 2 UTF8String tag; 3 long-form length; 4 missing
+    pub c2: u8,
+    /// outer: 0 short/definite as DER requires; 1 long-form length with a redundant byte (82 00 nn); 2 indefinite length (80 ... 00 00); 3 a fifth element appended inside; 4 trailing byte after the SEQUENCE; 5 SET tag; 6 stated length one more than the content
+    pub outer: u8,
+    pub compressed: bool,
+}
+
+pub fn check_cipher_doc_shape(c: &CipherDocShape) -> CaseResult {
+    let n = &r2::params().n;
+    let d = from_be(&expand_bytes(0xa5d1, 32)) % (n - 2u32) + 1u32;
+    let msg = b"sm2cipher document shapes".to_vec();
+    // a nonce for which both coordinates have their top bit set, so that every INTEGER shape differs from the minimal one
+    let mut k = from_be(&expand_bytes(0xa5d2, 32)) % (n - 1u32) + 1u32;
+    let w = loop {
+        if let Some(w) = r2::encrypt_with_k(&r2::g_mul(&d), &msg, &k) {
+            let (x, y) = r2::xy(&w.c1).unwrap();
+            if x[0] >= 0x80 && y[0] >= 0x80 {
+                break w;
+            }
+        }
+        k = (&k % (n - 1u32)) + 1u32;
+    };
+    let (x, y) = r2::xy(&w.c1).unwrap();
+    let long = |tag: u8, content: &[u8]| -> Vec<u8> { let mut v = vec![tag, 0x81, content.len() as u8]; v.extend_from_slice(content); v };
+    let int = |coord: &[u8; 32], shape: u8| -> Vec<u8> {
+        let mut minimal = vec![0u8];
+        minimal.extend_from_slice(coord);
+        match shape % 6 {
+            0 => der::tlv(0x02, &minimal),
+            1 => { let mut v = vec![0u8]; v.extend_from_slice(&minimal); der::tlv(0x02, &v) }
+            2 => der::tlv(0x02, coord),
+            3 => der::tlv(0x02, &[]),
+            4 => der::tlv(0x04, &minimal),
+            _ => long(0x02, &minimal),
+        }
+    };
+    let hash = match c.hash % 6 {
+        0 => der::tlv(0x04, &w.c3),
+        1 => der::tlv(0x04, &w.c3[..31]),
+        2 => { let mut v = w.c3.to_vec(); v.push(0); der::tlv(0x04, &v) }
+        3 => der::tlv(0x03, &w.c3),
+        4 => der::tlv(0x04, &[]),
+        _ => long(0x04, &w.c3),
+    };
+    let c2 = match c.c2 % 5 {
+        0 => der::tlv(0x04, &w.c2),
+        1 => der::tlv(0x04, &[]),
+        2 => der::tlv(0x0C, &w.c2),
+        3 => long(0x04, &w.c2),
+        _ => vec![],
+    };
+    let mut body = [int(&x, c.x), int(&y, c.y), hash, c2].concat();
+    if c.outer % 7 == 3 {
+        body.extend_from_slice(&der::tlv(0x05, &[]));
+    }
+    let doc: Vec<u8> = match c.outer % 7 {
+        1 => { let mut v = vec![0x30, 0x82, 0x00, body.len() as u8]; v.extend_from_slice(&body); v }
+        2 => { let mut v = vec![0x30, 0x80]; v.extend_from_slice(&body); v.extend_from_slice(&[0, 0]); v }
+        4 => { let mut v = der::tlv(0x30, &body); v.push(0); v }
+        5 => der::tlv(0x31, &body),
+        6 => { let mut v = der::tlv(0x30, &body); let l = v.len(); if v[1] < 0x7f { v[1] += 1; } else { v[l.min(2)] = v[l.min(2)].wrapping_add(1); } v }
+        _ => der::tlv(0x30, &body),
+    };
+    let standard = c.x % 6 == 0 && c.y % 6 == 0 && c.hash % 6 == 0 && c.c2 % 5 == 0 && c.outer % 7 == 0;
+    let sk = lib_sk(&d).map_err(|e| Fail { key: "entry=Sm2PrivateKey::new input=d-in-[1,n-2] outcome=rejected".into(), detail: e })?;
+    let shape = format!("x#{} y#{} hash#{} c2#{} outer#{} compressed={}", c.x % 6, c.y % 6, c.hash % 6, c.c2 % 5, c.outer % 7, c.compressed);
+    match outcome(|| sk.decrypt_asn1(&doc, c.compressed, Sm2Model::C1C3C2)) {
+        Outcome::Panic(p) => fail(format!("entry=Sm2PrivateKey::decrypt_asn1 input=document-shape outcome=panic site={}", panic_site(&p)), format!("{}: {} -> {}", shape, hex::encode(&doc), p)),
+        Outcome::Ok(m) => {
+            ensure!(m == msg, "entry=Sm2PrivateKey::decrypt_asn1 input=document-shape outcome=wrong-plaintext", "{}: {}", shape, hex::encode(&m));
+            pass(!standard, "cipher-document-shape/accepted")
+        }
+        Outcome::Err(e) => {
+            ensure!(!standard, "entry=Sm2PrivateKey::decrypt_asn1 input=valid outcome=rejected", "{}: {}", shape, e);
+            pass(true, "cipher-document-shape/rejected")
+        }
+    }
+}
+
 #[derive(Serialize, Deserialize, Hash, Debug, Clone)]
 pub struct EdgeAsn1 {
     pub d: Hex,
@@ -847,6 +936,26 @@ pub fn run(ctx: &Ctx) {
         }
         v
     }, check_key_doc_shape);
+
+    ctx.exhaustive("cipher_document_shapes", "SM2Cipher documents around a genuine ciphertext with 6 shapes per INTEGER (minimal, redundant 00, negative, empty, wrong tag, long-form length) x 6 hash shapes x 5 ciphertext shapes x 7 outer shapes (long-form / indefinite length, extra element, trailing byte, SET, overstated length) — all single and pairwise deviations plus a diagonal: never a panic, an accepted document yields the message, the standard shape is accepted", || {
+        let mut v = Vec::new();
+        for x in 0..6u8 {
+            for y in 0..6u8 {
+                for hash in 0..6u8 {
+                    for c2 in 0..5u8 {
+                        for outer in 0..7u8 {
+                            // all pairs of fields at full resolution, the other fields standard; plus a diagonal through the full grid
+                            let nonstd = (x != 0) as u8 + (y != 0) as u8 + (hash != 0) as u8 + (c2 != 0) as u8 + (outer != 0) as u8;
+                            if nonstd <= 2 || (x + 2 * y + 3 * hash + 5 * c2 + outer) % 11 == 0 {
+                                v.push(CipherDocShape { x, y, hash, c2, outer, compressed: (x + y + hash + c2 + outer) % 2 == 1 });
+                            }
+                        }
+                    }
+                }
+            }
+        }
+        v
+    }, check_cipher_doc_shape);
 
     ctx.exhaustive("asn1_integer_length_grid", "SM2Cipher documents whose x and y INTEGERs have every content length 0..=36 x 0..=36 (both flag values): never a panic; a plaintext only if it is the right one", || {
         let mut v = Vec::new();
